@@ -277,6 +277,8 @@ def check(prop, tier, seed):
         trusted_base=TRUSTED_BASE,
         theorems=P['theorems'], axioms={k: v for k, v in r['lean']['axioms'].items()},
         generated_files=P.get('gen', []), changed_generated_definitions=r['lean'].get('changed_generated', []),
+        function_body_skeletons_compared=r['lean'].get('translate', {}).get('skeleton_functions', 0),
+        function_body_skeletons_changed=[c['function'] for c in (r['lean'].get('translate', {}).get('skeleton_changes') or [])],
         theorems_rechecked_with_unrelated_changes_neutralised=r['lean'].get('carried', {}),
         evaluations=r['cov']['evaluations'], distinct_nontrivial=r['cov']['distinct'],
         traces_validated_against_impl=r['cov']['cases'],
